@@ -88,7 +88,7 @@ def ev (S : Sem K) : E → V K
 
 structure Laws (S : Sem K) : Prop where
   atom_nat : ∀ n : Nat, S.atomNum (toString n) = (n : K)
-  atom_neg : ∀ t : String, t.startsWith "-" = true → S.atomNum t = -S.atomNum (t.drop 1).toString
+  atom_neg : ∀ t : String, headMinus t = true → S.atomNum t = -S.atomNum (tailStr t)
   true_num : S.atomNum "True" = 1
   false_num : S.atomNum "False" = 0
   true_bool : S.atomBool "True" = true
